@@ -212,6 +212,7 @@ def run(repo, rep, tier):
               construct="table-entry-glued", detail="; ".join(
                   "%s:%d %s" % (g[0].relpath, g[1], g[2])
                   for g in glued_[:3]) or "%d word tables" % nt_)
+    L.state_rule(repo, rep)
 
 
 def _coverage(repo, rep):
